@@ -7,6 +7,35 @@
 EXTENDS MC_Kernel, Json
 CONSTANTS Name, Setup
 Emit == (~ ENABLED Next) => PrintT(<<"KERNELGEN", ToJson(hist)>>)
+
+(***************************************************************************)
+(* Preemption-bounded schedules (exhaustive): the coroutine that is        *)
+(* running goes on until it has answered; switching to another one while   *)
+(* it still has something to do costs one preemption, and at most Bound    *)
+(* preemptions are spent.  The clock may jump at any point.  Nearly every  *)
+(* atomicity violation needs one or two preemptions at the right places;   *)
+(* TLC enumerates ALL schedules within the bound, each one printed when    *)
+(* nothing is left to do.                                                  *)
+(***************************************************************************)
+CONSTANT Bound
+VARIABLES cur, pre, adv,    \* adv: the clock has just jumped (only a step that reads the clock may follow)
+          must               \* the coroutine whose completion is waiting: it is resumed before anything else happens
+                             \* (when a completion is delivered matters only through the clock, and the clock may jump first)
+gvars == <<vars, cur, pre, adv, must>>
+CurBusy == \E id \in DOMAIN co : co[id].own = cur /\ co[id].ph # "done"
+By(o) == LET cost == IF cur # "" /\ o # cur /\ CurBusy THEN 1 ELSE 0 IN
+         pre + cost <= Bound /\ pre' = pre + cost /\ cur' = o
+GenInit == Init /\ cur = "" /\ pre = 0 /\ adv = FALSE /\ must = ""
+GenNext ==
+  \/ \E i \in DOMAIN Script : must = "" /\ Start(i) /\ By(Rid(i)) /\ adv' = FALSE /\ must' = ""
+  \/ \E k \in Sweeps : must = "" /\ Sweep(k) /\ By(k \o ToString(nsweeps + 1)) /\ adv' = FALSE /\ must' = ""
+  \/ \E t \in Times : ~ adv /\ Advance(t) /\ adv' = TRUE /\ UNCHANGED <<cur, pre, must>>
+  \/ \E id \in DOMAIN co : must \in {"", id} /\ Resume(id) /\ By(co[id].own) /\ adv' = FALSE /\ must' = ""
+  \/ \E id \in DOMAIN co : must = "" /\ ~ adv /\ (Commit(id) \/ Route(id)) /\ By(co[id].own) /\ adv' = FALSE /\ must' = id
+  \/ \E id \in DOMAIN co : must = "" /\ ~ adv /\ co[id].sub = "sender" /\ (\E o \in [DOMAIN co[id].sends -> {"ok", "fail"}] : Send(id, o))
+                              /\ By(co[id].own) /\ adv' = FALSE /\ must' = id
+GenSpec == GenInit /\ [][GenNext]_gvars
+EmitAll == (~ ENABLED GenNext) => PrintT(<<"KERNELGEN", ToJson(hist)>>)
 Header == PrintT(<<"KERNELHDR", ToJson([name |-> Name, setup |-> Setup, script |-> Script, delay |-> Delay,
                                         t0 |-> CHOOSE t \in Times : \A u \in Times : t <= u])>>)
 ASSUME Header
